@@ -85,3 +85,9 @@ func init() {
 		addStages(p, "exploration", note, wire)
 	}
 }
+
+func init() {
+	addStages("C16", "fault_enumeration", []string{
+		"E2 replay stage registered for C16 (node level, crash instants sampled): hosts of a cluster that snapshots every 8-25 entries, streams / sends snapshots to lagging replicas, compacts and shrinks, lose power at step-worker points and arbitrary moments; when a host comes back the real start-up cleanup runs on the reopened log store and the property's directory oracle is applied (only the recorded snapshot remains, complete and loadable; no temporary, flagged or unrecorded directory), then the replica must start and converge to the replay of the committed log",
+	}, Stage{Engine: "clusterrun", Mode: "replay", Race: true, BatchesQ: 8, BatchesT: 16, Par: 8, TimeoutQ: 900, TimeoutT: 5400})
+}
